@@ -125,7 +125,7 @@ def delay_differs(f, h):
 
 
 # ------------------------------------------------------------------ normalisation
-def normalise_fw(events, dev: hostobs.Devices, *, keep_config=False):
+def normalise_fw(events, dev: hostobs.Devices, *, keep_config=False, user_pinmode_pins=None, host_pins=None):
     """Firmware raw events -> shared vocabulary.  Configuration of device-owned pins is dropped here
     (C05 checks configure-before-use on the raw trace)."""
     out = []
@@ -137,13 +137,16 @@ def normalise_fw(events, dev: hostobs.Devices, *, keep_config=False):
             motor_pins[p] = (m, role)
     mstate = {}
     servo_pin = {}
+    just_attached = None
+    in_setup = True
     for ev in events:
         k = ev[0]
         if k == "marker":
+            in_setup = ev[1] == "setup"
             out.append(ev)
         elif k == "pinMode":
             pin = ev[1].v
-            if pin in devpins and not keep_config:
+            if not keep_config and (pin in devpins or (user_pinmode_pins is not None and pin not in user_pinmode_pins)):
                 continue
             out.append(("pinMode", pin, ev[2].v if ev[2].concrete else ev[2]))
         elif k == "digitalWrite":
@@ -156,6 +159,8 @@ def normalise_fw(events, dev: hostobs.Devices, *, keep_config=False):
                 m, role = motor_pins[pin]
                 mstate.setdefault(m, {})[role] = val
             else:
+                if in_setup and host_pins is not None and pin not in host_pins and not keep_config:
+                    continue   # hoisted configuration of a device the python run has not declared (yet)
                 b = (1 if val.v else 0) if val.concrete else z3.If(val.v != 0, z3.BitVecVal(1, 64), z3.BitVecVal(0, 64))
                 out.append(("dwrite", pin, b))
         elif k == "analogWrite":
@@ -167,6 +172,8 @@ def normalise_fw(events, dev: hostobs.Devices, *, keep_config=False):
                 st = mstate.setdefault(m, {})
                 out.append(("motor", m, st.get("in1"), st.get("in2"), ev[2]))
             else:
+                if in_setup and host_pins is not None and pin not in host_pins and not keep_config:
+                    continue
                 out.append(("awrite", pin, f_int64(ev[2])))
         elif k == "digitalRead":
             pin = ev[1].v
@@ -185,8 +192,13 @@ def normalise_fw(events, dev: hostobs.Devices, *, keep_config=False):
             continue
         elif k == "servo_attach":
             servo_pin[ev[1]] = ev[2].v if isinstance(ev[2], BV) and ev[2].concrete else ev[2]
+            just_attached = ev[1]
             if keep_config:
                 out.append(ev)
+            continue
+        elif k == "servo_us" and just_attached == ev[1] and not keep_config:
+            just_attached = None      # parking the horn at the minimum pulse is part of attaching
+            continue
         elif k == "servo_write":
             out.append(("servo_angle", servo_pin.get(ev[1], ev[1]), ev[2]))
         elif k == "servo_us":
@@ -194,6 +206,14 @@ def normalise_fw(events, dev: hostobs.Devices, *, keep_config=False):
         else:
             out.append(ev)
     return out
+
+
+def host_pin_set(th, dev):
+    pins = set(dev.device_pins())
+    for e in th:
+        if e[0] in ("dwrite", "awrite", "pinMode", "level", "dread", "aread") and isinstance(e[1], int):
+            pins.add(e[1])
+    return pins
 
 
 def normalise_host(events, dev: hostobs.Devices):
@@ -222,20 +242,40 @@ def _same_term(a, b):
     return False
 
 
+RESET_AT_MARKERS = [False]
+
+
+def _motor_sig(ev):
+    return tuple(z3.simplify(x.z()) if isinstance(x, (BV, FP)) else
+                 (z3.simplify(pysym.zfp(x)) if pysym.is_sym(x) else x) for x in ev[2:])
+
+
+def _is_initial_motor(sig):
+    """the state every motor is in after setup: bridge off, duty 0 (firmware) / mode coast, speed 0 (host)"""
+    if len(sig) == 3:
+        return all(z3.is_bv_value(x) and x.as_long() == 0 for x in sig if z3.is_expr(x)) and all(z3.is_expr(x) for x in sig)
+    if len(sig) == 2:
+        return sig[0] == "coast"
+    return False
+
+
 def drop_redundant_levels(evs):
-    """A write of the level a pin already has is not observable on the pin: drop it (both sides)."""
+    """A write of the level a pin already has is not observable on the pin: drop it (both sides).  A motor starts
+    in the safe-stop state (the firmware drives it there during setup; the host model starts in 'coast')."""
     last = {}
     lastm = {}
     out = []
     for ev in evs:
-        if ev[0] == "marker":
-            # pass boundaries may carry a havocked device state (inductive steps): forget pin history
-            last, lastm = {}, {}
+        if ev[0] == "marker" and RESET_AT_MARKERS[0]:
+            # pass boundaries carry a havocked device state (inductive steps): forget pin history
+            last, lastm = {}, {"__havoc__": True}
         if ev[0] == "motor":
             key = tuple(ev[1])
-            sig = tuple(z3.simplify(x.z()) if isinstance(x, (BV, FP)) else
-                        (z3.simplify(pysym.zfp(x)) if pysym.is_sym(x) else x) for x in ev[2:])
+            sig = _motor_sig(ev)
             prev = lastm.get(key)
+            if prev is None and "__havoc__" not in lastm and _is_initial_motor(sig):
+                lastm[key] = sig
+                continue
             if prev is not None and len(prev) == len(sig) and all(
                     (a.eq(b) if z3.is_expr(a) and z3.is_expr(b) else (not z3.is_expr(a) and not z3.is_expr(b) and a == b))
                     for a, b in zip(prev, sig)):
@@ -646,13 +686,15 @@ def run_host_concrete(src: str, passes: int, inputs: Dict[str, float], prestate=
 # ------------------------------------------------------------------ the differential obligation
 class ScriptDiff:
     def __init__(self, oid, src, passes=2, *, max_block_visits=40, max_paths=600, timeout_ms=20000,
-                 budget_s=240, check_ub=False, claim_timeout_ms=90000, prestate=None, fw_only_check=None):
+                 budget_s=240, check_ub=False, claim_timeout_ms=90000, prestate=None, fw_only_check=None,
+                 compare=True):
         self.oid, self.src, self.passes = oid, src, passes
         self.max_block_visits, self.max_paths = max_block_visits, max_paths
         self.timeout_ms, self.budget_s, self.check_ub = timeout_ms, budget_s, check_ub
         self.claim_timeout_ms = claim_timeout_ms
         self.prestate = prestate          # object with host(g, hw) and fw(ex, st): havoc state after setup
-        self.fw_only_check = fw_only_check
+        self.fw_only_check = fw_only_check  # monitor over the raw firmware events of a path -> [problem strings]
+        self.compare = compare
 
     def run(self) -> Result:
         t0 = time.time()
@@ -698,6 +740,7 @@ class ScriptDiff:
         inconc = []
         cex = None
         npairs = 0
+        monitor_hit = []
         for out, hw in hpaths:
             if out.status == "raised":
                 continue  # Python raises on these inputs: the property is about well-defined runs
@@ -706,6 +749,9 @@ class ScriptDiff:
                 continue
             dev = out.result
             th = normalise_host(out.events, dev)
+            upins = {e[1] for e in th if e[0] == "pinMode"}
+            hpins = host_pin_set(th, dev)
+            RESET_AT_MARKERS[0] = self.prestate is not None
             # ---- firmware paths compatible with this host path
             ex = fwsym.Executor(mod, max_block_visits=self.max_block_visits, max_paths=self.max_paths,
                                 solver_timeout_ms=self.timeout_ms, check_ub=self.check_ub)
@@ -732,7 +778,24 @@ class ScriptDiff:
                 if any(n[0] == "imprecise" for n in pr.notes):
                     inconc.append("firmware side: string op on rendered number")
                     return
-                tf = normalise_fw(pr.events, dev)
+                if self.fw_only_check is not None:
+                    problems = self.fw_only_check(pr.events, dev)
+                    if problems:
+                        r, m = ex.model_for()
+                        if r == "sat":
+                            fev, err = run_firmware_concrete(cpp + (self.prestate.cpp(m) if self.prestate else ""),
+                                                             self.passes, dict(m))
+                            if fev is not None and self.fw_only_check(fev, dev):
+                                cex = (m, "monitor: " + problems[0], pr.state.inputs, out.inputs)
+                                monitor_hit.append(self.fw_only_check(fev, dev)[0])
+                                return
+                            inconc.append("monitor violation did not replay: " + problems[0])
+                        elif r == "unknown":
+                            inconc.append("unknown: path feasibility (monitor)")
+                        return
+                if self.compare is False:
+                    return
+                tf = normalise_fw(pr.events, dev, user_pinmode_pins=upins, host_pins=hpins)
                 definite, conds, where = traces_differ(tf, th)
                 if definite:
                     # structural mismatch: any model of the path is a candidate, but value-dependent
@@ -792,6 +855,12 @@ class ScriptDiff:
         if cex is not None:
             m, where, finputs, hinputs = cex
             assign = dict(m or {})
+            if monitor_hit:
+                res.verdict = "violation"
+                res.detail = f"firmware trace violates a temporal monitor ({monitor_hit[0]}) for inputs {assign}"
+                res.witness = {"script": self.src, "passes": self.passes, "inputs": assign, "where": monitor_hit[0],
+                               "class": classify(monitor_hit[0])}
+                return res
             # inputs only one side created default to 0
             return self._replay(res, cpp, assign, where)
         if not hpaths or all(o.status == "raised" for o, _ in hpaths):
@@ -826,8 +895,10 @@ class ScriptDiff:
             res.detail = f"replay: python status {hout.status}"
             return res
         dev = hw.devices
-        tf = normalise_fw(fev, dev)
         th = normalise_host(hout.events, dev)
+        RESET_AT_MARKERS[0] = self.prestate is not None
+        tf = normalise_fw(fev, dev, user_pinmode_pins={e[1] for e in th if e[0] == "pinMode"},
+                          host_pins=host_pin_set(th, dev))
         definite, conds, where2 = traces_differ(tf, th)
         differs = definite or any((c is True) or (z3.is_expr(c) and z3.is_true(z3.simplify(c))) for c in conds)
         if differs:
